@@ -1488,3 +1488,29 @@ Lemma never_panics evs c :
   N.of_nat (count_issues evs) <= two31 ->
   wstatus_of (wrun winit evs) (N.of_nat c) <> Some WPanicked.
 Proof. apply no_panic_if_repaired. unfold wrong_type_outcome. discriminate. Qed.
+
+(* --- why c16_own needs fresh ids: a second caller that draws the id of a call still waiting for
+       its ack is refused ("already exist call id") although the broker acknowledges that id, and
+       its one-caller specification says it should have been acknowledged --- *)
+Lemma own_needs_distinct_ids :
+  let evs := [ECall KCall 7; ECall KCall 7; EAck 7 0 1; EWake 0; EWake 1] in
+  espec 1 evs = Some (EDone RAcked) /\
+  estatus_of (erun einit evs) 1 = Some (EDone RExists) /\
+  ~ NoDup (call_ids evs).
+Proof.
+  split; [vm_compute; reflexivity|]. split; [vm_compute; reflexivity|].
+  cbn. intros H. inversion H as [|x l Hin _]; subst. apply Hin. left. reflexivity.
+Qed.
+
+(* --- any number of further responses bearing an id that has just been answered (identical copies
+       or not) change nothing: they are never delivered to anybody and never block the dispatcher
+       (never_blocks holds for every history) --- *)
+Lemma duplicates_ignored evs id ty m (ps : list (N * N)) :
+  let s1 := wstep (wrun winit evs) (Respond id ty m) in
+  wrun s1 (map (fun p => Respond id (fst p) (snd p)) ps) = s1.
+Proof.
+  intros s1.
+  assert (Hc : lookup id (t_pend (w_tab s1)) = None) by (apply respond_clears, wG_run, wG_init).
+  induction ps as [|p ps IH]; [reflexivity|].
+  cbn [map]. rewrite wrun_cons, unknown_ignored by exact Hc. exact IH.
+Qed.
